@@ -56,6 +56,14 @@ P = {
          "TLC invariant EncTotal on MC_EncTotal.tla (outcome of the reference encoder is Ok or the documented error class); replay under catch_unwind on every sink; exhaustive sweep of all Unicode scalar values; counts announced through exact size hints",
          "all 1 112 064 scalar values of char (encodable iff <= U+FFFF); unencodable characters nested in 7 container / record shapes (error propagates, every entry point hands back Err); dangling FieldMadeOptional -> UnknownFieldReferenceInEvolutionStep; a record with 254 declared steps; sequence counts i32::MAX / i32::MAX+1 / u32::MAX / u32::MAX+1; (thorough) a 2 GiB string and a 4 GiB byte vector; transient constructors in C14's universe.",
          "write_compressed with >= 4 GiB input is not executed (minutes of DEFLATE); its length check is the same try_into pattern"),
+ "C18": (True, "model_checking", "6 C18",
+         "PlusCal specification Calls.tla (per-type Once protocol, per-call tables, non-atomic call bodies) checked by TLC over all interleavings incl. liveness; two defect models must be caught; stress replay: fresh process per trial, barrier-released threads on first use of many derived types, results compared with the specification's fresh-call answer",
+         "spec: all interleavings of 3 threads x 3 calls over 3 types (OnceOnly, ResultIndependent, CtxFresh, MetaStable, CallsTerminate under weak fairness); shared-table and no-Once defect models are detected (vacuity guard). code: 24 (quick) / 400 (thorough) trials, 2 / 8 / 16 threads, ~240 derived types each with its own lazy metadata first-used under contention, then steady state in rotated order; items include records with deduplicated strings and a cyclic object graph so that table state leaking between calls or threads changes bytes.",
+         "real thread schedules are stressed, not enumerated"),
+ "C19": (True, "other", "6 C19",
+         "RefLife.tla: TLC enumerates all client programs over the object table and classifies them by GetSafe; each is rendered as safe Rust on three API paths and compiled (legal siblings must compile, violating programs must be rejected); catalogue of the API's other borrow relationships; unsafe decode paths replayed under Miri on model-generated vectors, cross-checked with the reference decoder",
+         "the observables are a compiler verdict and an interpreter's undefined-behaviour report: the specification generates programs and inputs, rustc and Miri are the monitors (level: other). D13 (object table keeps raw pointers) is a listed known finding: its witnesses compile.",
+         "AddressSanitizer is not used (Miri also sees uninitialised reads, which ASan does not); Miri executes ~2500 vectors per run"),
  "C03": (True, "model_checking", "6 C03",
          "TLA+ Adt.tla: TLC enumerates all legal evolution histories and checks mechanism (header/chunks/regions) = documented outcome; each history is rendered as derive inputs (one Rust type per version) and every (writer, reader, value, embedding) case replayed",
          "every legal history up to 2 steps (quick) / 3 steps (thorough) from every initial record of 1-2 fields, all version pairs, all values, four embeddings (top level, in a tuple, in a chunk, in a vector in a chunk); expected outcome computed by the specification's Expected operator written from the documentation; vacuity guards: dropping the legality rule or the DESIGN-9 exclusion makes TLC fail.",
